@@ -133,7 +133,7 @@ func (e *wireEngine) record(raw []byte, r *wRec) {
 					z := map[int]int{}
 					switch idx % 3 {
 					case 0:
-						for k := 0; k <= len(p.chunks); k++ {
+						for k := 0; k <= len(p.chunks) && k < 4096; k++ {
 							z[k] = 1
 						}
 					case 1:
